@@ -44,21 +44,26 @@ def belongs (s : Stmt) (it : Item) : Bool :=
 
 /-- walk the statements of one group along the depth-first item list: every statement must
 belong to the current item (which has not placed that section yet) or to a later one.
-Returns the statements with their item index. -/
-def assignGo : List Str → List Item → List Stmt → Option (List (Nat × Stmt))
-  | _, _, [] => some []
-  | _, [], _ :: _ => none
+Returns every way of doing so (statements with their item index) — two entries may name the
+same file, and then a statement can be the last one of the first or the first one of the
+second; the alternatives are explored only while fewer than `cap` are in hand. -/
+def assignGo : List Str → List Item → List Stmt → List (List (Nat × Stmt))
+  | _, _, [] => [[]]
+  | _, [], _ :: _ => []
   | seen, it :: its, s :: ss =>
     let fresh : Bool := match s with
       | .input _ _ sec => sec ∉ seen
       | .other _ => seen.isEmpty
     if belongs s it && fresh then
       let seen' := match s with | .input _ _ sec => sec :: seen | .other t => t :: seen
-      (assignGo seen' (it :: its) ss |>.map fun r => ((match it with | .leaf l => l.idx | .mark m => m.idx), s) :: r)
+      let here := (assignGo seen' (it :: its) ss).map fun r =>
+        ((match it with | .leaf l => l.idx | .mark m => m.idx), s) :: r
+      -- a later entry with the same file may be the owner instead
+      if its.any (belongs s) then (here ++ assignGo [] its (s :: ss)).take 64 else here
     else assignGo [] its (s :: ss)
 termination_by _ its ss => its.length + ss.length
 
-def assign (items : List Item) (ss : List Stmt) : Option (List (Nat × Stmt)) := assignGo [] items ss
+def assign (items : List Item) (ss : List Stmt) : List (List (Nat × Stmt)) := assignGo [] items ss
 
 /-- within one entry and one group: sections that are here on their own right (listed, or moved
 here by `section_order`) come in `(list position, name)` order; a sub-group section follows
@@ -93,11 +98,10 @@ def checkSegment (d : Document) (o : Opts) (seg : Segment) (stmts : List (Str ×
   else
     let perGroup := lists.map fun g => (g, (stmts.filter (·.1 = g)).map (·.2))
     match perGroup.find? (fun gs =>
-        match assign items gs.2 with
-        | none => true
-        | some withIdx =>
+        -- no way of attributing the statements to the entries satisfies the rules
+        !(assign items gs.2).any fun withIdx =>
           -- pads / offsets only in their own section; per-entry section order
-          (withIdx.any fun (x : Nat × Stmt) => match x.2 with
+          !((withIdx.any fun (x : Nat × Stmt) => match x.2 with
             | .other t => !(items.any fun it => match it with
                 | .mark mk => mk.text = t && (locOf seg [] (seg.sectionsSubgroups.length + 2) mk.sect = some gs.1)
                 | _ => false)
@@ -109,7 +113,7 @@ def checkSegment (d : Document) (o : Opts) (seg : Segment) (stmts : List (Str ×
                   | _ => none
                 let sections := if gs.1 ∈ seg.allocSections then seg.allocSections else seg.noloadSections
                 !entryOrderOk seg sections l.order secs
-              | _ => false)) with
+              | _ => false))) with
     | some gs => { ok := false, why := s!"segment {String.ofList seg.name}, group {String.ofList gs.1}: statements do not follow the depth-first file order / list positions" }
     | none =>
       -- every included pad / linker offset whose section is configured sits in that section's group
